@@ -4,6 +4,7 @@ package scen
 import (
 	"encoding/json"
 	"fmt"
+	"github.com/q191201771/naza/pkg/connection"
 	"os"
 	"strconv"
 	"sync"
@@ -198,6 +199,7 @@ func StartWorld(k *sim.Kernel, conf LalConf, mods ...logic.ModOption) *World {
 		o.NotifyHandler = w.Notify
 	}}, mods...)
 	hls.ZzSetFsl(k.FS.Fsl())
+	connection.ZzBeforeWrite = func() { k.YieldPoint("yield@write", k.P.YieldWrite) }
 	q := conf.QueueSize
 	if q == 0 {
 		q = 1024
